@@ -357,6 +357,27 @@ impl Report {
         self.violations < MAX_VIOLATIONS_PER_WORKER
     }
 
+    /// Reports a finding whose shape is a candidate for the known-findings file (the orchestrator decides):
+    /// printed at most three times per signature and never counted against the worker's violation cap.
+    pub fn violation_soft(&mut self, signature: &str, detail: &str, case: Value) {
+        let key = format!("soft_findings::{signature}");
+        let n = self.counters.get(&key).copied().unwrap_or(0);
+        self.count(&key, 1);
+        if n < 3 {
+            let line = json!({
+                "t": "violation",
+                "property": self.property,
+                "signature": signature,
+                "detail": detail,
+                "case": case,
+            });
+            let out = std::io::stdout();
+            let mut out = out.lock();
+            let _ = writeln!(out, "{line}");
+            let _ = out.flush();
+        }
+    }
+
     pub fn finish(&self) {
         let mut counters = Map::new();
         for (k, v) in &self.counters {
